@@ -13,6 +13,7 @@ import Driver.C14
 import Driver.C15
 import Driver.C18
 import Driver.C36
+import Driver.C33
 open Mitum Mitum.Driver
 
 def step (line : String) : String :=
@@ -31,6 +32,7 @@ def step (line : String) : String :=
   | "C25" :: ts => stepC25 ts
   | "C29" :: ts => stepC29 ts
   | "C31" :: ts => stepC31 ts
+  | "C33" :: ts => stepC33 ts
   | "C35" :: ts => stepC35 ts
   | "C36" :: ts => stepC36 ts
   | "C37" :: ts => stepC37 ts
